@@ -76,10 +76,46 @@ func runAlloc(fields []string) string {
 		out = append(out, fmt.Sprintf("allocs%s=%d", label, int(n)))
 		return true
 	}
+	var fw fox.ResponseWriter = foxWriter{newRecWriter()}
+	extra := func(label string, p [3]string, run func()) {
+		for i := 0; i < 8; i++ {
+			run()
+		}
+		n := testing.AllocsPerRun(40, run)
+		measured++
+		if n > 0 {
+			oracles = append(oracles, fmt.Sprintf("%s host=%s path=%s%s: %d allocations per request (tree maxParams=%d depth=%d)",
+				p[0], hx(p[1]), hx(p[2]), label, int(n), mp, depth))
+		}
+		out = append(out, fmt.Sprintf("allocs%s=%d", label, int(n)))
+	}
 	for k, p := range probes {
 		if !measure(newReq(p[0], p[1], p[2]), "", p) {
 			out = append(out, "unserved")
 			continue
+		}
+		if k%3 == 0 {
+			req := newReq(p[0], p[1], p[2])
+			// the entry points share the tree's context pool: a reverse lookup between two requests costs nothing either
+			extra("+reverse", p, func() {
+				_, _ = f.Reverse(p[0], p[1], p[2])
+				f.ServeHTTP(w, req)
+			})
+			// a manual lookup, closed again, and the same through a read-only view that a later commit has superseded
+			extra("+lookup", p, func() {
+				if _, cc, _ := f.Lookup(fw, req); cc != nil {
+					cc.Close()
+				}
+			})
+			view := f.Txn(false)
+			_, _ = f.Handle("GET", "/zz-alloc/"+strconv.Itoa(k), h)
+			extra("+oldview", p, func() {
+				if _, cc, _ := view.Lookup(fw, req); cc != nil {
+					cc.Close()
+				}
+			})
+			view.Abort()
+			_, mp, depth = fox.VerifTreeStats(f)
 		}
 		// the same request with a percent-escape in its last segment: the router then matches URL.RawPath
 		if n := len(p[2]); n > 1 && (p[2][n-1] >= 'a' && p[2][n-1] <= 'z' || p[2][n-1] >= '0' && p[2][n-1] <= '9') {
